@@ -180,3 +180,18 @@ func VerifBBPruneAdd(uri string, existing []VerifBBExisting, pending []VerifBBPe
 	api.pruneComments(pr, cur, pend)
 	return api.addComments(pr, cur, pend)
 }
+
+// VerifBBListComments = bitBucketAPI.getPullRequestComments (whoami + the paged activities listing + its filter).
+func VerifBBListComments(uri string) ([]VerifBBExisting, error) {
+	api := newBitBucketAPI("v0", uri, 30_000_000_000, "token", "P", "R", 50, false)
+	cs, err := api.getPullRequestComments(&bitBucketPR{ID: 1})
+	if err != nil {
+		return nil, err
+	}
+	out := make([]VerifBBExisting, 0, len(cs))
+	for _, c := range cs {
+		out = append(out, VerifBBExisting{ID: c.id, Text: c.text, Severity: c.severity, Replies: c.replies,
+			Anchor: VerifBBAnchor{Path: c.anchor.Path, Line: c.anchor.Line, LineType: c.anchor.LineType, DiffType: c.anchor.DiffType}})
+	}
+	return out, nil
+}
